@@ -140,8 +140,8 @@ class C17(core.Check):
         "LinearInterpolatedCurve (on one segment of the polyline, through the knots) and ParametricSurfaceClamp on a "
         "plane / bilinear patch for all parameters; translation/symmetry/rotation links keep their relation for leader "
         "moves of any size, the rotation relation determines the follower uniquely and commutes with rotations about "
-        "the axis; update is pure. Circle / spline / user-function curves, curved surfaces, the knot parameters of an "
-        "interpolated curve (square roots: observed, checked by the oracle against chord lengths) and the accuracy "
+        "the axis; update is pure; CircleCurve clamps at rationally parametrised angles and chord-length knot parameters "
+        "(square-root witnesses) are in the model. Spline / user-function curves, curved surfaces and the accuracy "
         "of the scipy minimiser are checked by the oracle only."
     )
 
